@@ -154,13 +154,22 @@ theorem C12_isolation (E : Env) (go : Go) (tpl name : Bytes) (args : List Val) (
     template, same macro, same argument values, same resulting state), each under the condition that
     makes its route resolve:
       1. `m(args)`          — `m` resolves to the macro (`{% macro m %}` of this template was rendered, or `from L import m`);
-      2. `_self.m(args)`    — the same; `_self` is a variable or at least not a macro, and does not hold a
-                              module map; no function-call mechanism claims the name `m` before the macro
-                              lookup of `CallFunction`;
+      2. `_self.m(args)`    — the same; and the name `_self` does not evaluate to a module map (it reads
+                              a context variable, else an engine global, else a macro value, else null:
+                              `evalVar_not_map_of_hasVar` / `evalVar_not_map_of_unbound` discharge this);
       3. `lib.m(args)`      — the variable `lib` holds a module map with `m ↦ macro L m` (`import L as lib`)
-                              — a macro that is also called `lib` does not matter, the variable shadows it;
+                              — a macro or an engine global that is also called `lib` does not matter,
+                              the variable shadows both;
       4. `m(args)` after `from L import m`  — as 1;
-      5. `a(args)` after `from L import m as a` — `a` resolves to the macro `(L, m)`. -/
+      5. `a(args)` after `from L import m as a` — `a` resolves to the macro `(L, m)`.
+
+    `plainName`: NO route needs it any more.  Routes 1, 4, 5 go through `.call`, which looks the name
+    up among the visible macros before it ever reaches `CallFunction`; route 3 finds the macro in the
+    module map; route 2 (`.mcall` on a non-module) now also consults the visible macros before
+    `CallFunction`.  So the agreement covers macros called `range`, `length`, `parent` or like a
+    registered function on every route (`C12_routes_agree_function_named`).  `plainName` is only still
+    needed by `callFunction_macro`, the statement about `CallFunction`'s own macro fallback, which
+    really is consulted after `parent`, the registered functions and the built-ins. -/
 theorem C12_routes_agree (E : Env) (L m a lib : Bytes) (args : List Expr) (st st1 : St) (av : List Val)
     (kvs : List (Bytes × Val))
     (hargs : evalArgs E args st = .ok (av, st1))
@@ -168,18 +177,41 @@ theorem C12_routes_agree (E : Env) (L m a lib : Bytes) (args : List Expr) (st st
     (hallow_a : denied E st.ctx E.allowedFunctions a = false) :
     (st.ctx.getMacro m = some (L, m) →
         evalX E true (.call m args) st = .ok ((.callable L m av, []), st1)) ∧
-    (st.ctx.getMacro m = some (L, m) → plainName E m →
-      (st.ctx.hasVar (b "_self") = true ∨ st.ctx.getMacro (b "_self") = none) →
-      (∀ kvs, st.ctx.getVar (b "_self") ≠ .map kvs) →
+    (st.ctx.getMacro m = some (L, m) →
+      (∀ kvs, evalX E true (.var (b "_self")) st ≠ .ok ((.map kvs, []), st)) →
         evalX E true (.mcall (.var (b "_self")) m args) st = .ok ((.callable L m av, []), st1)) ∧
     (st.ctx.getVar lib = .map kvs → mapGet m kvs = some (.macro L m) →
         evalX E true (.mcall (.var lib) m args) st = .ok ((.callable L m av, []), st1)) ∧
     (st.ctx.getMacro a = some (L, m) →
         evalX E true (.call a args) st = .ok ((.callable L m av, []), st1)) :=
   ⟨fun h => route_call hallow_m h hargs,
-   fun h hp hs hv => route_self hallow_m hs hv hargs hp h,
+   fun h hs => route_self hallow_m hs hargs h,
    fun hv hm => route_import hallow_m hv hm hargs,
    fun h => route_call hallow_a h hargs⟩
+
+/-- the `_self` condition of route 2 in its two concrete forms: `_self` is bound in the context chain
+    to something that is not a map (null included), or it is bound nowhere and no engine global
+    called `_self` holds a map -/
+theorem C12_self_not_module (E : Env) (st : St) :
+    (st.ctx.hasVar (b "_self") = true → (∀ kvs, st.ctx.getVar (b "_self") ≠ .map kvs) →
+      ∀ kvs, evalX E true (.var (b "_self")) st ≠ .ok ((.map kvs, []), st)) ∧
+    (st.ctx.hasVar (b "_self") = false → (∀ kvs, getKV (b "_self") E.globals ≠ some (.map kvs)) →
+      ∀ kvs, evalX E true (.var (b "_self")) st ≠ .ok ((.map kvs, []), st)) :=
+  ⟨evalVar_not_map_of_hasVar, evalVar_not_map_of_unbound⟩
+
+/-- `C12_routes_agree_function_named`: routes 1 and 2 side by side, for EVERY macro name `m` — there is
+    no side condition on the name, so in particular for a macro named like a function (the built-ins
+    `range`, `length`, `parent()`, or a registered function): the visible macro wins over the function
+    on BOTH routes, and the function is not called (the resulting state is the one after evaluating
+    the arguments: no callback event, no spy invocation). -/
+theorem C12_routes_agree_function_named (E : Env) (L m : Bytes) (args : List Expr) (st st1 : St) (av : List Val)
+    (hargs : evalArgs E args st = .ok (av, st1))
+    (hallow : denied E st.ctx E.allowedFunctions m = false)
+    (hmac : st.ctx.getMacro m = some (L, m))
+    (hself : ∀ kvs, evalX E true (.var (b "_self")) st ≠ .ok ((.map kvs, []), st)) :
+    evalX E true (.call m args) st = .ok ((.callable L m av, []), st1) ∧
+    evalX E true (.mcall (.var (b "_self")) m args) st = .ok ((.callable L m av, []), st1) :=
+  ⟨route_call hallow hmac hargs, route_self hallow hself hargs hmac⟩
 
 /-- hence the same output: printing the call written in any resolving way is the same macro call
     `go (.macroCall L m av)` in the same state -/
@@ -332,16 +364,27 @@ example :
     evalX E true (.call a [.int 1]) st = .ok ((.callable L m [.int 1], []), st) := by
   obtain ⟨f1, f2, f3, f4, f5, f6, f7, f8, f9⟩ := facts
   obtain ⟨r1, r2, r3, r4⟩ := C12_routes_agree E L m a lib [.int 1] st st [.int 1] [(m, .macro L m)] rfl rfl rfl
-  refine ⟨r1 ?_, r2 ?_ ⟨f7, f8, f9, rfl⟩ (Or.inr ?_) ?_, r3 ?_ ?_, r4 ?_⟩
+  have hnov : st.ctx.hasVar self = false := by
+    simp [Ctx.hasVar, getKV, st, List.find?, f3]
+  refine ⟨r1 ?_, r2 ?_ ((C12_self_not_module E st).2 hnov (fun kvs h => by cases h)), r3 ?_ ?_, r4 ?_⟩
   · simp [Ctx.getMacro, getKV, st]
   · simp [Ctx.getMacro, getKV, st]
-  · show st.ctx.getMacro self = none
-    simp [Ctx.getMacro, getKV, st, List.find?, f1, f2, scopesMacro]
-  · have : st.ctx.getVar self = .null := by simp [Ctx.getVar, getKV, st, List.find?, f3, scopesVar]
-    intro kvs h; rw [show b "_self" = self from rfl, this] at h; cases h
   · simp [Ctx.getVar, getKV, st]
   · simp [mapGet]
   · simp [Ctx.getMacro, getKV, st, List.find?, f6]
+
+/-- non-vacuity of `C12_routes_agree_function_named`: a macro called `range` (the name of a built-in
+    function, `rangeName_eq`); `range(1)` and `_self.range(1)` both give the macro's closure -/
+def rangeName : Bytes := [114, 97, 110, 103, 101]
+theorem rangeName_eq : rangeName = b "range" := by decide +kernel
+def stR : St := { ctx := { macros := [(rangeName, L, rangeName)] } }
+example :
+    evalX E true (.call rangeName [.int 1]) stR = .ok ((.callable L rangeName [.int 1], []), stR) ∧
+    evalX E true (.mcall (.var (b "_self")) rangeName [.int 1]) stR =
+      .ok ((.callable L rangeName [.int 1], []), stR) :=
+  C12_routes_agree_function_named E L rangeName [.int 1] stR stR [.int 1] rfl rfl
+    (by simp [Ctx.getMacro, getKV, stR])
+    ((C12_self_not_module E stR).2 (by simp [Ctx.hasVar, getKV, stR]) (fun kvs h => by cases h))
 end C12Ex
 
 /-! ### end to end from SOURCE text -/
@@ -352,6 +395,11 @@ def libSrc : String :=
 
 /-- the five routes give the same output: directly and through `_self` in the defining template … -/
 example : renderSources [("lib", libSrc ++ "{{ m(1) }}{{ _self.m(1) }}")] "lib" = some (b "[1|B||][1|B||]") := by
+  decide +kernel
+
+/-- a macro named like the built-in function `range`: both `range(…)` and `_self.range(…)` call the macro -/
+example : renderSources [("lib", "{% macro range(a) %}[{{ a }}]{% endmacro %}{{ range(1) }}{{ _self.range(2) }}")] "lib" =
+    some (b "[1][2]") := by
   decide +kernel
 
 /-- … through `import … as`, `from … import` and `from … import … as` elsewhere -/
